@@ -489,4 +489,30 @@ example :
     outdated s (s.vars 0) = true ∧ outdated (step s (.solve 0)).1 ((step s (.solve 0)).1.vars 0) = false := by
   decide
 
+/-! ### known finding `stale-ghosts-read-by-term-builders`
+
+The guarantees above are about what the *solvers* see: they look at `outdated` and re-apply.  The stored ghost layer
+itself IS stale between an edit and the next `apply_BCs` / solve, and the other readers of the ghosted array
+(`linearMean`, `gradientTerm`, `upwindMean`, the TVD right-hand sides, …) do not look at the flag. -/
+
+/-- after a value edit the ghost layer is the one computed from the interior of BEFORE the edit, and the variable is
+    flagged outdated — any reader that ignores the flag sees stale ghost cells -/
+theorem value_edit_leaves_stale_ghost :
+    let s := run [.newVarDefault, .editVal 0]
+    (s.vars 0).ghostI ≠ (s.vars 0).interior ∧ outdated s (s.vars 0) = true := by
+  decide
+
+/-- the same after an edit of the boundary conditions: the ghost layer was computed from the previous content -/
+theorem bc_edit_leaves_stale_ghost :
+    let s := run [.newVarDefault, .editBC 0]
+    (s.vars 0).ghostB ≠ (s.bcs (s.vars 0).bc).content ∧ outdated s (s.vars 0) = true := by
+  decide
+
+/-- … and `apply_BCs` (or any solve) repairs it -/
+theorem apply_repairs_stale_ghost :
+    let s := run [.newVarDefault, .editVal 0, .editBC 0, .applyBCs 0]
+    (s.vars 0).ghostI = (s.vars 0).interior ∧ (s.vars 0).ghostB = (s.bcs (s.vars 0).bc).content
+      ∧ outdated s (s.vars 0) = false := by
+  decide
+
 end PyFV.C09
